@@ -13,7 +13,7 @@ def run(tier):
               note='symbol magnitude (bag) = implemented factor (bag), both directions, offsets for C/F only')
     if out['accepted']:
         cout = V.run(out, tier)
-        V.report(chk, 'C01', cout, {'conv_nonfinite', 'conv_ulps', 'conv_zero_not_zero', 'conv_sign_asymmetric'})
+        V.report(chk, 'C01', cout, {'conv_nonfinite', 'conv_ulps', 'conv_zero_not_zero', 'conv_sign_asymmetric', 'conv_sequence_overload'})
         evs = cout['events']
         nvals = sum(e['n'] for e in evs)
         j = cout['result'] or {}
